@@ -27,7 +27,7 @@ CLAIM = {
              "(R4) index mapping -- in array mode the id expression of the embedded grow(...) is evaluated for every task index of the header range and the multiset of grown ids must equal the intended ids (all batches, the explicit ids, or the missing ones), no index out of range; single mode calls crop.grow(batch_ids) with the explicit ids or the dynamic "
              "crop.missing_results(); task variable, directive prefix and array flag match the scheduler table; (R5) the embedded program's imports and calls resolve against the current signatures; (R6) shebang first, here-doc opener and a "
              "terminator that cannot occur inside the program (thorough: bash -n on every script); (R7) the console entry point resolves and reaches Crop.grow_missing with kwargs the enumerator accepts; (R8) missing_results / progress listings never count "
-             "a leftover temporary; (R9) the pooled grow() used by array scripts keeps the batch order. (R10) for every combination of omitted / given num_procs, num_threads, num_workers no arithmetic is applied to an omitted (None) option, i.e. a script is produced. Not decided: scheduler behaviour, actually running the jobs."),
+             "a leftover temporary; (R9) the pooled grow() used by array scripts keeps the batch order. (R11) missing_results, from which grow_missing, the CLI and gen_cluster_script take the ids, looks at the result files in every call (= C08.R9). (R10) for every combination of omitted / given num_procs, num_threads, num_workers no arithmetic is applied to an omitted (None) option, i.e. a script is produced. Not decided: scheduler behaviour, actually running the jobs."),
     "note": "Trusted base: str.format semantics; the scheduler table (sge: #$ -t / SGE_TASK_ID, pbs: #PBS -J / PBS_ARRAY_INDEX, slurm: #SBATCH --array= / SLURM_ARRAY_TASK_ID); bash here-doc semantics.",
     "technique": "static analysis: abstract interpretation with string-constant folding and definite-key tracking, exhaustive enumeration of the finite configuration space, parsing of the assembled embedded program (ast.parse / bash -n are parsers, nothing is run)",
 }
@@ -454,6 +454,8 @@ def run(ctx):
                 r6b.ok("bash -n ok: %s" % name)
     cli_rule(ctx, "C16.R7")
     option_defaults_rule(ctx, "C16.R10")
+    from . import batching as _b
+    _b.missing_fresh_rule(ctx, "C16.R11")
     c08.listing_rule(ctx, "C16.R8")
     c04.grow_order_rule(ctx, "C16.R9")
     sl = [f, prog.need_func(CROP + ".grow_cluster"), prog.need_func("xyzpy.gen.xyzpy_grow_cli.main"), prog.need_func(CROP + ".Crop.missing_results"), prog.need_func(CROP + ".Crop.grow_missing"), prog.need_func(CROP + ".Crop.grow")]
